@@ -553,6 +553,11 @@ pub fn check<P: Prop>(o: &CheckOpts) -> i32 {
 
     // failures -> minimise -> replay files
     let failures = std::mem::take(&mut *shared.failures.lock().unwrap());
+    // a panic inside the verification machinery is a harness error, never a violation
+    if let Some(f) = failures.iter().find(|f| util::is_harness_location(&f.violation.class)) {
+        println!("HARNESS-ERROR property={} the harness itself panicked: {} ({}) in run {} (seed {})", P::ID, f.violation.class, f.violation.detail, f.idx, f.seed);
+        return 2;
+    }
     let mut violation_lines = vec![];
     let mut replay_samples = vec![];
     for f in &failures {
